@@ -33,21 +33,7 @@ def corpus_build(garble, garble_flags=(), env_extra=None, name="mod1"):
         if os.path.exists(os.path.join(out, "done.json")):
             return json.load(open(os.path.join(out, "done.json")))
         # keep the cache small: drop other entries
-        # (oldest first; never an entry another process holds the lock of, i.e. is building or reading right now)
-        others = sorted((e for e in os.listdir(root) if os.path.isdir(os.path.join(root, e)) and e != key),
-                        key=lambda e: os.path.getmtime(os.path.join(root, e)))
-        while len(others) > 7:
-            e = others.pop(0)
-            try:
-                lk = open(os.path.join(root, e + ".lock"), "w")
-                fcntl.flock(lk, fcntl.LOCK_EX | fcntl.LOCK_NB)
-            except OSError:
-                continue
-            try:
-                shutil.rmtree(os.path.join(root, e), ignore_errors=True)
-            finally:
-                fcntl.flock(lk, fcntl.LOCK_UN)
-                lk.close()
+        vlib.evict_cache_entries(root, key)
         shutil.rmtree(out, ignore_errors=True)
         os.makedirs(out)
         proj_dir = os.path.join(out, "src")
